@@ -466,7 +466,10 @@ def fix_reimported_names(source: str) -> str:
 
             referenced_name = asname if asname else name
 
-            if trace_result := trace_origin(name, module_source, __all__=True):
+            if name == "*":
+                # Everything the module provides, not just what one of its own imports does
+                node_names.append(alias)
+            elif trace_result := trace_origin(name, module_source, __all__=True):
                 *_, module_import_node = trace_result
                 if isinstance(module_import_node, ast.ImportFrom):
                     # Remove this alias from node.names
